@@ -9,8 +9,21 @@ inactive).  Every assignment gets its own data Input v<k> so the SMT check disti
 import itertools
 
 PREDS = ['p', 'q', 'r']                 # predicates of the enumerated trees
-ALL_PREDS = PREDS + ['s', 't']          # handmade trees may use two more (distinct wires at every level)
+ALL_PREDS = PREDS + ['s', 't'] + ['u%d' % i for i in range(13)]   # handmade trees may use more (long sibling chains)
 W = 3
+
+
+def used_preds(nodes):
+    """the predicate names a tree mentions (in ALL_PREDS order)"""
+    seen = set()
+
+    def walk(ns):
+        for pred, _, children in ns:
+            if pred != 'O':
+                seen.add(pred)
+            walk(children)
+    walk(nodes)
+    return [p for p in ALL_PREDS if p in seen]
 
 
 def count(nodes):
@@ -253,8 +266,10 @@ def nonexclusive_accepted(tree):
         tags, used = elaborate(tree)
     except pyrtl.PyrtlError:
         return dict(failed=False, observed='rejected', expected='rejected')
-    for bits in itertools.product([0, 1], repeat=len(ALL_PREDS)):
-        val = dict(zip(ALL_PREDS, bits))
+    up = used_preds(tree)
+    for bits in itertools.product([0, 1], repeat=len(up)):
+        val = dict.fromkeys(ALL_PREDS, 0)
+        val.update(zip(up, bits))
         val.update({v: 0 for v in tags.values()})
         val['__regd'] = 0
         acts = interp(IntOps, tree, val, tags)
@@ -300,6 +315,15 @@ def handmade_trees():
         # an otherwise inside the first member, then later top-level members
         out.append([['p', [t1], [leaf('q', t2), leaf('O', t2)]], ['r', [t1], []],
                     ['O', [], [leaf('s', t1), leaf('t', t2)]]])
+    # long sibling chains (6, 7, 9, 10, 13 members): each member must be disabled by EVERY earlier sibling; at top level,
+    # nested under a branch, with and without a closing otherwise
+    many = ['q', 'r', 's', 't'] + ['u%d' % i for i in range(13)]
+    for n in (6, 7, 9, 10, 13):
+        t1 = ('w', 'reg', 'mem', 'wd')[n % 4]
+        chain = [leaf(many[i], t1) for i in range(n)]
+        out.append(chain)
+        out.append(chain[:-1] + [leaf('O', t1)])
+        out.append([['p', [], chain], leaf('O', t1)])
     return out
 
 
